@@ -520,7 +520,61 @@ func runC09Ctx(p *Prog, r *Report) {
 				// the step's key is the loop's own
 				rss := enclosingRanges(p, a.stmt, fn.Body)
 				if len(rss) == 0 {
-					probs = append(probs, "not inside a loop over the elements")
+					// a helper that builds the child context for one element: the step's key must be a
+					// parameter, and every caller must pass its own loop's index / key for it
+					okHelper := false
+					if fn.Obj != nil {
+						sig := fn.Obj.Type().(*types.Signature)
+						var keyParams []int
+						onlyParams := true
+						ast.Inspect(a.step, func(z ast.Node) bool {
+							id, ok := z.(*ast.Ident)
+							if !ok {
+								return true
+							}
+							v, ok := info.ObjectOf(id).(*types.Var)
+							if !ok || v.IsField() || v.Pkg() == nil || v.Parent() == v.Pkg().Scope() {
+								return true
+							}
+							idx := -1
+							for i := 0; i < sig.Params().Len(); i++ {
+								if sig.Params().At(i) == v {
+									idx = i
+								}
+							}
+							if idx < 0 {
+								onlyParams = false
+							} else {
+								keyParams = append(keyParams, idx)
+							}
+							return true
+						})
+						sites := buildCallers(p)[fn.Obj]
+						if onlyParams && len(keyParams) > 0 && len(sites) > 0 {
+							okHelper = true
+							for _, cs := range sites {
+								crss := enclosingRanges(p, cs.call, cs.fn.Body)
+								if len(crss) == 0 {
+									okHelper = false
+									probs = append(probs, "called outside a loop over the elements at "+p.Pos(cs.call))
+									continue
+								}
+								for _, ki := range keyParams {
+									if ki >= len(cs.call.Args) {
+										okHelper = false
+										continue
+									}
+									if ok, why := derivesFromLoop(cs.fn, cs.call.Args[ki], rangeVars(cs.fn.Info(), crss), crss[len(crss)-1], false, 3); !ok {
+										okHelper = false
+										probs = append(probs, "caller at "+p.Pos(cs.call)+" passes a key that "+why)
+									}
+								}
+							}
+						}
+					}
+					if !okHelper && len(probs) == 0 {
+						probs = append(probs, "not inside a loop over the elements")
+					}
 				} else if ok, why := derivesFromLoop(fn, a.step, rangeVars(info, rss), rss[len(rss)-1], false, 3); !ok {
 					probs = append(probs, "step "+exprStr(a.step)+" "+why)
 				}
